@@ -53,7 +53,8 @@ macro_rules! fork_by_ref {
             drop(fork);
             assert!(pulls == if na > nb { na } else { nb }, "the source is pulled exactly once per distinct frame");
             kani::cover!(level_again, "branches level again");
-            kani::cover!(a_full_lead && b_full_lead, "each branch was ahead by the full capacity at some point");
+            kani::cover!(a_full_lead, "A was ahead by the full capacity at some point");
+            kani::cover!(b_full_lead, "B was ahead by the full capacity at some point");
             kani::cover!(true, "end");
         }
     };
